@@ -350,6 +350,7 @@ namespace Pistache::Async
                 }
                 catch (const InternalRethrow& e)
                 {
+                    std::unique_lock<std::mutex> guard(chain_->mtx);
                     PISTACHE_SIM_POINT("promise.rethrow.settle", chain_.get());
                     chain_->exc   = e.exc;
                     chain_->state = State::Rejected;
@@ -437,6 +438,7 @@ namespace Pistache::Async
                 void doReject(const std::shared_ptr<CoreT<T>>& core) override
                 {
                     reject_(core->exc);
+                    std::unique_lock<std::mutex> guard(this->chain_->mtx);
                     PISTACHE_SIM_POINT("promise.doReject.walk", this->chain_.get());
                     for (const auto& req : this->chain_->requests)
                     {
@@ -448,6 +450,7 @@ namespace Pistache::Async
                 void finishResolve(Ret&& ret) const
                 {
                     typedef typename std::decay<Ret>::type CleanRet;
+                    std::unique_lock<std::mutex> guard(this->chain_->mtx);
                     PISTACHE_SIM_POINT("promise.finishResolve.construct", this->chain_.get());
                     this->chain_->template construct<CleanRet>(std::forward<Ret>(ret));
                     PISTACHE_SIM_POINT("promise.finishResolve.walk", this->chain_.get());
@@ -485,6 +488,7 @@ namespace Pistache::Async
                 void doReject(const std::shared_ptr<CoreT<void>>& core) override
                 {
                     reject_(core->exc);
+                    std::unique_lock<std::mutex> guard(this->chain_->mtx);
                     PISTACHE_SIM_POINT("promise.doReject.walk", this->chain_.get());
                     for (const auto& req : this->chain_->requests)
                     {
@@ -496,6 +500,7 @@ namespace Pistache::Async
                 void finishResolve(Ret&& ret) const
                 {
                     typedef typename std::remove_reference<Ret>::type CleanRet;
+                    std::unique_lock<std::mutex> guard(this->chain_->mtx);
                     PISTACHE_SIM_POINT("promise.finishResolve.construct", this->chain_.get());
                     this->chain_->template construct<CleanRet>(std::forward<Ret>(ret));
                     PISTACHE_SIM_POINT("promise.finishResolve.walk", this->chain_.get());
@@ -619,6 +624,7 @@ namespace Pistache::Async
 
                     void operator()(const PromiseType& val)
                     {
+                        std::unique_lock<std::mutex> guard(chainCore->mtx);
                         PISTACHE_SIM_POINT("promise.chainer.construct", chainCore.get());
                         chainCore->construct<PromiseType>(val);
                         PISTACHE_SIM_POINT("promise.chainer.walk", chainCore.get());
@@ -646,6 +652,7 @@ namespace Pistache::Async
                     promise.then(std::move(chainer), [weakPtr](std::exception_ptr exc) {
                         if (auto core = weakPtr.lock())
                         {
+                            std::unique_lock<std::mutex> guard(core->mtx);
                             PISTACHE_SIM_POINT("promise.chainer.reject", core.get());
                             core->exc   = std::move(exc);
                             core->state = State::Rejected;
@@ -702,6 +709,7 @@ namespace Pistache::Async
 
                     void operator()(const PromiseType& val)
                     {
+                        std::unique_lock<std::mutex> guard(chainCore->mtx);
                         PISTACHE_SIM_POINT("promise.chainer.construct", chainCore.get());
                         chainCore->construct<PromiseType>(val);
                         PISTACHE_SIM_POINT("promise.chainer.walk", chainCore.get());
@@ -748,6 +756,7 @@ namespace Pistache::Async
                     auto chainer = makeChainer(promise);
                     promise.then(std::move(chainer), [=](std::exception_ptr exc) {
                         auto core   = this->chain_;
+                        std::unique_lock<std::mutex> guard(core->mtx);
                         PISTACHE_SIM_POINT("promise.chainer.reject", core.get());
                         core->exc   = std::move(exc);
                         core->state = State::Rejected;
